@@ -35,6 +35,9 @@ CONSTANTS Dev_h12,     \* TRUE = the repaired defect: R<=4 file key derived from
           Dev_h13,     \* TRUE = the repaired defect: the dictionary of a stream is not walked
           Dev_t127,    \* TRUE = the repaired defect: R>=5 /U and /O are computed from the untruncated password, authentication truncates to 127 bytes
           Dev_mdict,   \* TRUE = the repaired defect: the Metadata exemption also skips non-stream dictionaries typed /Metadata
+          Dev_drop,    \* TRUE = as the code is: revisions 2-4 DROP every character of a password that PDFDocEncoding lacks
+          Dev_cryptv,  \* TRUE = as the code is: a stream's Crypt filter entry is honoured below V 4 (no crypt filters there: Identity)
+          Dev_mdstr,   \* TRUE = as the code is: EncryptMetadata false also skips the strings of the metadata stream's dictionary
           Dev_osrep,   \* TRUE = a seeded defect (never in the code): Decrypt's re-expansion of object streams REPLACES live objects
           Dev_dparr    \* TRUE = the repaired defect: a Crypt override given in the array form of DecodeParms is ignored
 
@@ -135,10 +138,13 @@ CfMethod(cf, name) ==
 (*   length; eq: equals its plaintext now; present: still there; osm: the    *)
 (*   object is a member of an object stream container held by the document.  *)
 
+\* Exempt are the cross-reference stream with the strings of its dictionary, and the DATA of a metadata stream when
+\* EncryptMetadata is false (the strings of that stream's dictionary are ordinary strings of the document).  Below V 4
+\* there are no crypt filters (CF, StmF, StrF, Crypt "meaningful only when V is 4 or 5"): every stream is RC4-encrypted
+\* with the file key, whatever its /Filter entry says.
 IsoSubject(cfg, it) ==
     IF it.otyp = "XRef" THEN "no"
-    ELSE IF it.otyp = "Metadata" /\ ~cfg.em THEN (IF it.insd THEN "unspec" ELSE "no")
-    ELSE IF cfg.V < 4 /\ it.kind = "stream" /\ it.crypt.f # "none" THEN "unspec"
+    ELSE IF it.otyp = "Metadata" /\ ~cfg.em /\ ~it.insd THEN "no"
     ELSE "yes"
 
 IsoNamed(cfg, name) ==
@@ -159,7 +165,9 @@ MustHide(cfg, it) ==
 
 \* narrow class of an item that should be hidden but still equals its plaintext
 HiddenClass(cfg, it) ==
-    IF it.kind = "str" /\ it.insd THEN "streamdict.string"
+    IF it.kind = "str" /\ it.insd /\ it.otyp = "Metadata" /\ ~cfg.em THEN "metadata.streamdict"
+    ELSE IF it.kind = "stream" /\ it.crypt.f # "none" /\ cfg.V < 4 THEN "crypt.belowV4"
+    ELSE IF it.kind = "str" /\ it.insd THEN "streamdict.string"
     ELSE IF it.kind = "stream" /\ it.crypt.f = "arr" THEN "crypt.dparray"
     ELSE IF it.inmd /\ ~cfg.em THEN "metadata.nonstream"
     ELSE "hidden.other"
@@ -181,13 +189,27 @@ AllEq(items, viaFile) ==
 (*   PDFDocEncoding + first 32 bytes for R<=4, SASLprep + first 127 bytes   *)
 (*   for R>=5), "diff" (canonical forms differ), "unsure" (the canonical     *)
 (*   forms depend on what is done with characters PDFDocEncoding lacks).     *)
+(* Revisions 2-4, characters without a PDFDocEncoding code: ISO 32000 leaves  *)
+(* their treatment to the implementation; whatever it is (refusing the        *)
+(* password, or an injective fall-back such as UTF-8), two passwords that      *)
+(* differ in such a character within their first 8 characters are different    *)
+(* passwords ("diff").  A configuration whose user or owner password is not    *)
+(* representable (cfg.urep / cfg.orep; for R >= 5: SASLprep refuses it) may be *)
+(* refused by MakeState; if it is accepted the clauses apply to it.           *)
+(* Further fields of a relation, read by the impl-shaped layer only:          *)
+(*   ud / od : the password authenticates as user / owner under lopdf's       *)
+(*   convention of today (unencodable characters dropped); rep: representable. *)
 
 Right(rel) == rel.u = "same" \/ rel.o = "same"
 Wrong(rel) == rel.u = "diff" /\ rel.o = "diff"
 
 \* why a right password failed: the narrow classes of the confirmed deviations
+\* a password with characters PDFDocEncoding lacks is involved (the narrow class of Dev_drop)
+Unencodable(cfg, rel) == cfg.R <= 4 /\ (~rel.rep \/ ~cfg.urep \/ ~cfg.orep)
+
 RightFailClass(cfg, rel, dflt) ==
-    IF cfg.R <= 4 /\ rel.o = "same" /\ rel.u = "diff" THEN "owner.R234.key"
+    IF Unencodable(cfg, rel) THEN "pw.unencodable.R234"
+    ELSE IF cfg.R <= 4 /\ rel.o = "same" /\ rel.u = "diff" THEN "owner.R234.key"
     ELSE IF cfg.R >= 5 /\ (rel.u = "same" => cfg.ulen > 127) /\ (rel.o = "same" => cfg.olen > 127) THEN "pw.gt127.R56"
     ELSE dflt
 
@@ -200,11 +222,12 @@ ContentFailClass(cfg, rel, dflt) ==
 (* cfg = [V, R, klen, em, cf, stmf, strf, ulen, olen, e, nobj0]             *)
 (*   e = relation of the EMPTY password (what the loader tries), nobj0 =     *)
 (*   number of objects of the plaintext document.                            *)
-(* j   = [mem, disk, via]: what the in-memory document / the saved file are *)
+(* j   = [mem, disk, via, st]: what the in-memory document / the saved file are *)
 (*   according to the PROPERTY: "plain", "enc" (the plaintext document       *)
 (*   encrypted under cfg), "lost" (after an anomaly: nothing is demanded     *)
 (*   until the run is reset), disk also "none"; via: the in-memory document  *)
-(*   was read from a file (bookkeeping objects are then not demanded).       *)
+(*   was read from a file (bookkeeping objects are then not demanded); st:   *)
+(*   the caller holds an EncryptionState (MakeState was not refused).        *)
 (* ev  = [call, rel, res ("Ok" | "Err"), tenc, nobj, items, same]            *)
 (* Result: [ok, tags, j]                                                    *)
 
@@ -223,7 +246,7 @@ RestoredTags(cfg, ev, viaFile, content) ==
           ELSE {content})
 
 JudgeEncrypt(cfg, j, ev) ==
-    IF j.mem # "plain" THEN Vd(TRUE, {"ok-unjudged"}, [j EXCEPT !.mem = IF ev.same THEN j.mem ELSE "lost"])
+    IF j.mem # "plain" \/ ~j.st THEN Vd(TRUE, {"ok-unjudged"}, [j EXCEPT !.mem = IF ev.same THEN j.mem ELSE "lost"])
     ELSE IF ev.res # "Ok" THEN Vd(FALSE, {"encrypt.err"}, [j EXCEPT !.mem = Resync(ev, j.via)])
     ELSE LET t1 == IF ~ev.tenc \/ ev.nobj # cfg.nobj0 + 1 THEN {"encrypt.noencdict"} ELSE {}
              t2 == HiddenFails(cfg, ev.items)
@@ -241,7 +264,7 @@ JudgeDecrypt(cfg, j, ev) ==
               IF t = {} THEN Vd(TRUE, {"ok-restored"}, [j EXCEPT !.mem = "plain"])
               ELSE Vd(FALSE, t, [j EXCEPT !.mem = Resync(ev, j.via)])
     ELSE IF Wrong(ev.rel)
-    THEN IF ev.res = "Ok" THEN Vd(FALSE, {"rejects.accepted"}, [j EXCEPT !.mem = Resync(ev, j.via)])
+    THEN IF ev.res = "Ok" THEN Vd(FALSE, {IF Unencodable(cfg, ev.rel) THEN "pw.unencodable.R234" ELSE "rejects.accepted"}, [j EXCEPT !.mem = Resync(ev, j.via)])
          ELSE IF ~ev.same THEN Vd(FALSE, {"rejects.mutated"}, [j EXCEPT !.mem = "lost"])
          ELSE Vd(TRUE, {"ok-rejected"}, j)
     ELSE \* an equivalent password: acceptance is not demanded, but an accepted one must restore
@@ -260,8 +283,8 @@ JudgeAuth(cfg, j, ev) ==
              r == IF ev.call = "AuthUser" THEN [ev.rel EXCEPT !.o = "diff"]
                   ELSE IF ev.call = "AuthOwner" THEN [ev.rel EXCEPT !.u = "diff"] ELSE ev.rel
          IN IF must /\ ev.res # "Ok"
-            THEN Vd(FALSE, {IF cfg.R >= 5 THEN RightFailClass(cfg, r, "either.auth.rejected") ELSE "either.auth.rejected"}, j)
-            ELSE IF Wrong(ev.rel) /\ ev.res = "Ok" THEN Vd(FALSE, {"rejects.auth.accepted"}, j)
+            THEN Vd(FALSE, {IF cfg.R >= 5 \/ Unencodable(cfg, r) THEN RightFailClass(cfg, r, "either.auth.rejected") ELSE "either.auth.rejected"}, j)
+            ELSE IF Wrong(ev.rel) /\ ev.res = "Ok" THEN Vd(FALSE, {IF Unencodable(cfg, ev.rel) THEN "pw.unencodable.R234" ELSE "rejects.auth.accepted"}, j)
             ELSE Vd(TRUE, {IF must THEN "ok-auth" ELSE IF Wrong(ev.rel) THEN "ok-auth-rejected" ELSE "ok-unjudged"}, j)
 
 JudgeSave(cfg, j, ev) ==
@@ -278,9 +301,9 @@ JudgeLoad(cfg, j0, ev) ==
     THEN IF ev.res # "Ok" THEN Vd(FALSE, {LoadFailClass(cfg, "viafile.load.err")}, [j EXCEPT !.mem = IF ev.same THEN j.mem ELSE "lost"])
          ELSE IF ev.tenc
          THEN LET t == (IF ev.nobj # cfg.nobj0 + 1 THEN {"viafile.objects"} ELSE {})
-                       \cup {"viafile." \o c : c \in HiddenFails(cfg, ev.items) \ {"streamdict.string", "crypt.dparray", "metadata.nonstream"}}
+                       \cup {"viafile." \o c : c \in HiddenFails(cfg, ev.items) \cap {"hidden.other"}}   \* (the narrow classes were reported when Encrypt was judged)
               IN Vd(t = {}, IF t = {} THEN {"ok-loaded-enc"} ELSE t, [j EXCEPT !.mem = IF t = {} THEN "enc" ELSE "lost"])
-         ELSE IF Wrong(cfg.e) THEN Vd(FALSE, {"rejects.load.autodecrypt"}, [j EXCEPT !.mem = Resync(ev, TRUE)])
+         ELSE IF Wrong(cfg.e) THEN Vd(FALSE, {IF Unencodable(cfg, cfg.e) THEN "pw.unencodable.R234" ELSE "rejects.load.autodecrypt"}, [j EXCEPT !.mem = Resync(ev, TRUE)])
          ELSE LET t == RestoredTags(cfg, ev, TRUE, LoadFailClass(cfg, "restored.content")) IN
               IF t = {} THEN Vd(TRUE, {"ok-loaded-autodecrypted"}, [j EXCEPT !.mem = "plain"])
               ELSE Vd(FALSE, {IF c = "owner.R234.key" THEN c ELSE "viafile." \o c : c \in t}, [j EXCEPT !.mem = Resync(ev, TRUE)])
@@ -295,7 +318,13 @@ Judge(cfg, j, ev) ==
       [] ev.call \in {"AuthUser", "AuthOwner", "Auth"} -> JudgeAuth(cfg, j, ev)
       [] ev.call = "Save"      -> JudgeSave(cfg, j, ev)
       [] ev.call = "Load"      -> JudgeLoad(cfg, j, ev)
-      [] ev.call = "MakeState" -> IF ev.res = "Ok" /\ ev.same THEN Vd(TRUE, {"ok"}, j) ELSE Vd(FALSE, {"makestate.err"}, j)
+      \* MakeState, and Rekey = MakeState with another configuration (cfg is the new one; only on a document without
+      \* /Encrypt).  A configuration with an unrepresentable password may be refused.
+      [] ev.call \in {"MakeState", "Rekey"} ->
+            LET jm == IF ev.call = "Rekey" THEN [j EXCEPT !.mem = IF ev.tenc THEN "lost" ELSE @, !.disk = "none"] ELSE j IN
+            IF ev.res = "Ok" /\ ev.same THEN Vd(TRUE, {"ok"}, [jm EXCEPT !.st = TRUE])
+            ELSE IF ev.same /\ ~(cfg.urep /\ cfg.orep) THEN Vd(TRUE, {"ok-refused"}, [jm EXCEPT !.st = FALSE])
+            ELSE Vd(FALSE, {"makestate.err"}, [jm EXCEPT !.st = FALSE])
       \* an edit of the unencrypted document by the caller: the edited document is what has to come back from now on
       \* (a file saved before the edit holds the old document: nothing is demanded of it any more)
       [] ev.call = "Edit"      -> LET jd == [j EXCEPT !.disk = IF ev.same \/ @ = "none" THEN @ ELSE "lost"] IN
@@ -303,7 +332,7 @@ Judge(cfg, j, ev) ==
                                   ELSE Vd(TRUE, {"ok-unjudged"}, [jd EXCEPT !.mem = IF ev.same THEN j.mem ELSE "lost"])
       [] OTHER                 -> Vd(FALSE, {"unknown.call"}, j)
 
-J0 == [mem |-> "plain", disk |-> "none", via |-> FALSE]
+J0 == [mem |-> "plain", disk |-> "none", via |-> FALSE, st |-> FALSE]
 
 \* The clauses by name (for the reader; Judge is their conjunction applied to one call):
 \*   Restored : Decrypt with a right password returns Ok, every item equals its plaintext, no /Encrypt, no extra object
@@ -323,14 +352,18 @@ ImplNamed(st, name) ==          \* override: crypt_filters.get(name) ... unwrap_
     LET m == CfMethod(st.cf, name) IN IF m = "none" THEN "Identity" ELSE m
 
 ImplStreamM(st, crypt) ==
-    CASE crypt.f = "name"   -> ImplNamed(st, crypt.n)
+    CASE st.V < 4 /\ ~Dev_cryptv -> ImplDefault(st, st.stmf)   \* repaired: the override exists from V 4 on only
+      [] crypt.f = "name"   -> ImplNamed(st, crypt.n)
       [] crypt.f = "noname" -> "Identity"
       [] crypt.f = "arr"    -> IF Dev_dparr THEN ImplDefault(st, st.stmf) ELSE ImplNamed(st, crypt.n)
       [] OTHER              -> ImplDefault(st, st.stmf)       \* "none", and "nodp": no DecodeParms dictionary -> no override
 
+\* (a metadata stream with EncryptMetadata false: as the code is the function returns at once; repaired: the data is
+\* kept, the dictionary is still walked - MetaKeep)
+MetaKeep(st, o) == o.k = "stream" /\ o.typ = "Metadata" /\ ~st.em
 Exempt(st, o) ==
     \/ o.k = "stream" /\ o.typ = "XRef"
-    \/ o.k = "stream" /\ o.typ = "Metadata" /\ ~st.em
+    \/ MetaKeep(st, o) /\ Dev_mdstr
     \/ o.k = "dict" /\ o.typ = "Metadata" /\ ~st.em /\ Dev_mdict
 
 RECURSIVE WalkE(_, _, _)
@@ -338,7 +371,7 @@ WalkE(st, id, o) ==             \* encrypt_object
     IF o.k \in {"other", "encdict"} \/ Exempt(st, o) THEN o
     ELSE IF o.k \in {"arr", "dict"} THEN [o EXCEPT !.v = [i \in DOMAIN o.v |-> WalkE(st, id, o.v[i])]]
     ELSE IF o.k = "str" THEN [o EXCEPT !.pl = Enc(ImplDefault(st, st.strf), <<st.key, id>>, o.pl)]
-    ELSE [o EXCEPT !.pl = Enc(ImplStreamM(st, o.crypt), <<st.key, id>>, o.pl),
+    ELSE [o EXCEPT !.pl = IF MetaKeep(st, o) THEN @ ELSE Enc(ImplStreamM(st, o.crypt), <<st.key, id>>, o.pl),
                    !.d  = IF Dev_h13 THEN @ ELSE [i \in DOMAIN @ |-> WalkE(st, id, @[i])]]
 
 RECURSIVE WalkD(_, _, _)
@@ -357,6 +390,7 @@ WalkD(st, id, o) ==
     ELSE IF o.k = "str" THEN LET r == Dec(ImplDefault(st, st.strf), <<st.key, id>>, o.pl) IN [o |-> [o EXCEPT !.pl = r.pl], err |-> r.err]
     ELSE LET rd == IF Dev_h13 THEN [v |-> o.d, err |-> ""] ELSE WalkDSeq(st, id, o.d) IN
          IF rd.err # "" THEN [o |-> [o EXCEPT !.d = rd.v], err |-> rd.err]
+         ELSE IF MetaKeep(st, o) THEN [o |-> [o EXCEPT !.d = rd.v], err |-> ""]
          ELSE LET r == Dec(ImplStreamM(st, o.crypt), <<st.key, id>>, o.pl) IN [o |-> [o EXCEPT !.d = rd.v, !.pl = r.pl], err |-> r.err]
 
 -----------------------------------------------------------------------------
@@ -385,8 +419,12 @@ MkState(cfg) ==
      strf |-> IF cfg.V < 4 THEN "" ELSE cfg.strf]
 
 \* authenticate_{user,owner}_password on the canonical form of the offered password
-AuthU(cfg, pw) == pw.u \in {"same", "equiv"} /\ ~(cfg.R >= 5 /\ Dev_t127 /\ cfg.ulen > 127)
-AuthO(cfg, pw) == pw.o \in {"same", "equiv"} /\ ~(cfg.R >= 5 /\ Dev_t127 /\ cfg.olen > 127)
+\* (as the code is, revisions 2-4: on what is left of the password after the characters PDFDocEncoding lacks were dropped;
+\* repaired: such a password is refused with an error)
+AuthU(cfg, pw) == IF cfg.R <= 4 /\ Dev_drop THEN pw.ud
+                  ELSE pw.rep /\ pw.u \in {"same", "equiv"} /\ ~(cfg.R >= 5 /\ Dev_t127 /\ cfg.ulen > 127)
+AuthO(cfg, pw) == IF cfg.R <= 4 /\ Dev_drop THEN pw.od
+                  ELSE pw.rep /\ pw.o \in {"same", "equiv"} /\ ~(cfg.R >= 5 /\ Dev_t127 /\ cfg.olen > 127)
 
 \* EncryptionState::decode: compute_file_encryption_key(document, password)
 DecKey(cfg, pw) ==
@@ -394,7 +432,12 @@ DecKey(cfg, pw) ==
     ELSE IF Dev_h12 THEN (IF pw.u \in {"same", "equiv"} THEN "K" ELSE "Kbad")   \* Algorithm 2 on the offered password itself
     ELSE "K"                                                     \* repaired: the user password recovered from /O (Algorithm 7)
 
-StepMakeState(cfg, s) == [s EXCEPT !.st = MkState(cfg), !.res = Ok]
+\* sanitize_password_r4 / _r6: SASLprep refuses what it cannot prepare; PDFDocEncoding (repaired) what it cannot encode
+StepMakeState(cfg, s) ==
+    IF ~(cfg.urep /\ cfg.orep) /\ ~(cfg.R <= 4 /\ Dev_drop) THEN [s EXCEPT !.st = NoSt, !.res = Err("Password")]
+    ELSE [s EXCEPT !.st = MkState(cfg), !.res = Ok]
+\* the caller builds a state for another configuration (cfg is the new one); a file of the old one is forgotten
+StepRekey(cfg, s) == [StepMakeState(cfg, s) EXCEPT !.disk = NoDisk]
 
 StepEncrypt(cfg, s) ==
     IF s.tenc # 0 THEN [s EXCEPT !.res = Err("AlreadyEncrypted")]
@@ -405,7 +448,7 @@ StepEncrypt(cfg, s) ==
                       !.res = Ok]
 
 DecState(cfg, s, pw) ==
-    [key |-> DecKey(cfg, pw), em |-> s.enc.em, cf |-> s.enc.cf, stmf |-> s.enc.stmf, strf |-> s.enc.strf]
+    [key |-> DecKey(cfg, pw), V |-> s.enc.V, em |-> s.enc.em, cf |-> s.enc.cf, stmf |-> s.enc.stmf, strf |-> s.enc.strf]
 
 StepDecrypt(cfg, s, pw) ==
     IF s.tenc = 0 THEN [s EXCEPT !.res = Err("NotEncrypted")]
@@ -483,12 +526,14 @@ Step(cfg, s, c) ==
       [] c.call = "Save"      -> StepSave(cfg, s)
       [] c.call = "Load"      -> StepLoad(cfg, s)
       [] c.call = "Edit"      -> StepEdit(cfg, s, c.pos)
+      [] c.call = "Rekey"     -> StepRekey(cfg, s)
 
 \* which calls the drivers issue in which state (Encrypt needs a state, Load a file)
 Callable(s, c) ==
     CASE c.call = "Encrypt" -> s.st # NoSt
       [] c.call = "Load"    -> s.disk # NoDisk
       [] c.call = "Edit"    -> Editable(s, c.pos)
+      [] c.call = "Rekey"   -> s.tenc = 0
       [] OTHER              -> TRUE
 
 -----------------------------------------------------------------------------
